@@ -152,13 +152,25 @@ func findWaits(p *core.Prog, r *core.Result, rule string) []*WaitSite {
 				continue
 			}
 			// (d) the test reads fields of the same struct instance as the cond
-			sl := core.BackwardSlice(iff.Cond, core.SliceOpts{})
+			// (the test may be a named predicate of the same object: for g.full() { g.c.Wait() } with
+			// func (g *gate) full() bool { return g.capacity == 0 })
+			condV, condBase := iff.Cond, ws.Base
+			if hc, isCall := iff.Cond.(*ssa.Call); isCall {
+				if h := core.Callee(hc); h != nil && core.InModule(h) && h.Blocks != nil && h.Signature.Recv() != nil && len(hc.Call.Args) == 1 && core.Path(hc.Call.Args[0]) == ws.Base {
+					if rets := core.ReturnsOf(h); len(rets) == 1 {
+						if vals := core.RetVals(rets[0]); len(vals) == 1 {
+							condV, condBase = vals[0], core.Path(h.Params[0])
+						}
+					}
+				}
+			}
+			sl := core.BackwardSlice(condV, core.SliceOpts{})
 			fields := map[string]bool{}
 			for v := range sl {
 				if u, ok := v.(*ssa.UnOp); ok && u.Op == token.MUL {
 					if f2, ok := u.X.(*ssa.FieldAddr); ok {
 						o2, fld := core.FieldOf(f2)
-						if o2 == owner && core.Path(f2.X) == ws.Base {
+						if o2 == owner && core.Path(f2.X) == condBase {
 							fields[fld] = true
 						}
 					}
@@ -175,7 +187,7 @@ func findWaits(p *core.Prog, r *core.Result, rule string) []*WaitSite {
 			}
 			// which successor keeps waiting?
 			waitOnTrue := core.Reaches(header.Succs[0], wb, true)
-			if b, ok := iff.Cond.(*ssa.BinOp); ok && (b.Op == token.EQL || b.Op == token.NEQ) {
+			if b, ok := condV.(*ssa.BinOp); ok && (b.Op == token.EQL || b.Op == token.NEQ) {
 				var fld string
 				var k int64
 				okc := false
